@@ -1,11 +1,12 @@
 # C02 — Virtual Um routing  (fake_trx world property; shared machinery in lib/worldcheck.py)
 from lib import vf, worldcheck as wc
+from props import trxcon_part
 
 ID = "C02"
 LEVEL = "proof"
-LEAN_MODULES = ["OsmoVerif.Props.C02"]
-LEAN_MODEL_MODULES = wc.LEAN_MODEL_MODULES
-DRIVER_MODULES = wc.DRIVER_MODULES
+LEAN_MODULES = ["OsmoVerif.Props.C02"] + (["OsmoVerif.Props.Trxcon"] if ID == "C05" else [])
+LEAN_MODEL_MODULES = wc.LEAN_MODEL_MODULES + (trxcon_part.LEAN_MODEL_MODULES if ID == "C05" else [])
+DRIVER_MODULES = wc.DRIVER_MODULES + (["TrxconIf"] if ID == "C05" else [])
 ASSUMPTIONS = wc.ASSUMPTIONS + []
 MANIFEST = {
     "text": "Lean theorems: forwardMsg calls handleDataMsg exactly once for each running other transceiver whose Rx frequency in FN (fixed or hopping per TS 45.002) equals the sender's Tx frequency, for no other; datagram delivered iff recipient and not suppressed and metadata valid; nothing to sender/idle/detuned; model tied to the real BurstForwarder/FakeTRX by whole-history correspondence; oracle judges the real routing decisions (traced handle_data_msg calls) against an independent reference incl. an independent hopping implementation",
@@ -19,10 +20,14 @@ ORACLE_PROFILES = ['traffic', 'drop', 'mixed', 'wrap']
 
 def gen(run):
     wc.gen(run)
+    if ID == "C05":
+        trxcon_part.gen(run)
 
 
 def correspond(run, corr):
     wc.correspond(run, corr, CORR_PROFILES, 10000, 150000)
+    if ID == "C05":
+        trxcon_part.correspond(run, corr, parts=("cmd", "rsp"))
 
 
 def search(run, corr, deep):
@@ -30,8 +35,23 @@ def search(run, corr, deep):
     if ID == "C03":
         # thread schedules: one socket-thread operation racing one tick at every atomic-action boundary
         found += wc.sched_oracle(run, corr, deep)
+    if ID == "C05":
+        # trxcon side: real trx_if.c command emission / response parser, and the cross run with the real toolkit
+        found += trxcon_part.oracle(run, corr, deep, parts=("cmd", "rsp"))
+        found += wc.c05_cross(run, corr, deep)
     return found
 
 
 def replay(run, path):
-    return wc.replay(run, path, ID)
+    import json
+    rp = json.load(open(path))
+    tc = [v["witness"] for v in rp.get("violations", []) if str((v.get("witness") or {}).get("kind", "")).startswith("trxcon-")]
+    bad = 0
+    for w in tc:
+        still, text = trxcon_part.replay(run, w)
+        print(text)
+        bad += bool(still)
+    rc = wc.replay(run, path, ID)
+    if bad:
+        print("VIOLATION property=%s replay=%s" % (ID, path))
+    return 1 if (bad or rc) else 0
